@@ -1,4 +1,15 @@
+//! `vf-res` — resource-limit and fault properties: C18 (memory-limited queries exact or fail cleanly, release
+//! everything) and C20 (execution errors always surface).
+mod c18;
+mod c20;
+mod data;
+mod env;
+mod query;
+mod scripted;
+
 fn main() {
-    eprintln!("no sub-commands yet");
-    std::process::exit(2);
+    vf_kit::dispatch! {
+        "c18" => c18::C18,
+        "c20" => c20::C20,
+    }
 }
